@@ -101,7 +101,7 @@ Lemma step_build (l : nat) (T T' : thr) (ot : otrk) (o : dop) (r : res) (evs : l
   let fF := fold_left (ev_loc l (op_who o) (op_idx o)) evs f0 in
   t_clock T' = f_clock fF ->
   krel cnew (f_k fF) ->
-  flags (opost_f o r evs (f_k f0) true fF) ->
+  flags (opost_f o r evs (f_k f0) (f_clock f0) true fF) ->
   Inv l T' (ostep1 l ot o r evs).
 Proof.
   intros HI Hall Hupd Hnl Hts Hcn f0 fF Hclk Hkrel Hflags.
@@ -128,6 +128,7 @@ Proof.
   pose proof (opost_focus o r evs (cleared ot o) tf) as Hpost. fold i in Hpost.
   rewrite (cos_rel_pend _ _ Hrel) in Hpost. rewrite Hf in Hpost.
   change (get_k (cleared ot o) i) with (f_k f0) in Hpost.
+  change (o_clock (cleared ot o)) with (f_clock f0) in Hpost.
   destruct Hflags as (F7 & F8 & F9). rewrite <- Hpost in F7, F8, F9. cbn [focus f_07 f_08 f_09] in F7, F8, F9.
   constructor; try assumption.
   - rewrite Eclk. change (o_clock tf) with (f_clock (focus tf i)). rewrite Hf. symmetry. exact Hclk.
